@@ -39,9 +39,9 @@ def cases(tier, seed):
     for L in range(1, maxlen + 1):
         for k in range(10 if tier == "quick" else 30):
             out.append({"sub": "qft", "L": L, "k": k})
-    out += [{"sub": "sv", "i": i} for i in range(160 if tier == "quick" else 6000)]
-    out += [{"sub": "qpe", "i": i} for i in range(40 if tier == "quick" else 600)]
-    out += [{"sub": "iqpe", "i": i} for i in range(24 if tier == "quick" else 300)]
+    out += [{"sub": "sv", "i": i} for i in range(160 if tier == "quick" else 30000)]
+    out += [{"sub": "qpe", "i": i} for i in range(40 if tier == "quick" else 2400)]
+    out += [{"sub": "iqpe", "i": i} for i in range(24 if tier == "quick" else 1200)]
     return out
 
 
